@@ -93,9 +93,19 @@ Clauses(r, m) == IF r.mode = "buffered" THEN BClauses(r, m)
                  ELSE IF r.mode = "child" THEN CClauses(r)
                  ELSE PClauses(r, m)
 
+\* bulk runs (tens of thousands of items, no event log): the output is recorded as its maximal runs of consecutive values
+\* <<first, length>>, the calls of the processing function as the number of calls and of distinct items
+BulkClauses(r) == <<
+    <<"in_order", Len(r.runs) <= 1>>,
+    <<"complete_at_end", r.ended /\ (IF r.N = 0 THEN r.runs = <<>> ELSE r.runs = << <<0, r.N>> >>)>>,
+    <<"processed_at_most_once", r.calls = r.distinct /\ r.distinct = r.N>>
+  >>
 Judge(r) ==
     IF r.st # "ok"
     THEN [why |-> <<r.st>>, drift |-> <<>>, skip |-> FALSE, nt |-> FALSE]
+    ELSE IF r.mode = "bulk"
+    THEN LET bad == SelectSeq(BulkClauses(r), LAMBDA x : ~x[2])
+         IN [why |-> [k \in 1..Len(bad) |-> bad[k][1]], drift |-> <<>>, skip |-> FALSE, nt |-> r.N > 65536]
     ELSE LET m == MFold(M0, r.ev, 1)
              cl == Clauses(r, m)
              bad == SelectSeq(cl, LAMBDA x : ~x[2])
